@@ -38,6 +38,10 @@ func c05(tier string) []*explore.Scenario {
 	}
 	out = append(out, c05Server(2, 1))
 	out = append(out, c05ServerQ(2, 0, true), c05ServerQ(3, 0, true), c05ServerQ(2, 1, true))
+	out = append(out, c05ServerQC(2, 0, false, true), c05ServerQC(3, 0, true, true), c05ServerQC(2, 1, false, true))
+	if tier == "thorough" {
+		out = append(out, c05ServerQC(3, 0, false, true), c05ServerQC(2, 2, false, true))
+	}
 	// calls being started at the moment the read side fails while the write side stays usable: whatever they put on the wire carries an id of its own
 	out = append(out, donors("C05", []*explore.Scenario{c09Many(3, 2, false, 1), c09Many(6, 0, false, 1), c09Many(2, 0, false, 2), c09Many(20, 4, false, 0)})...)
 	out = append(out, c05TwoConnections(1), c05TwoConnections(0))
@@ -210,11 +214,21 @@ func c05Server(k, bound int) *explore.Scenario { return c05ServerQ(k, bound, fal
 // quiesce: the system comes to rest after every envelope (a stream whose envelopes have all
 // arrived has ended - handler returned, registration gone - before the next envelope arrives).
 func c05ServerQ(k, bound int, quiesce bool) *explore.Scenario {
+	return c05ServerQC(k, bound, quiesce, false)
+}
+
+// collide: the streams come from different senders sharing the connection (as behind a relay), with
+// distinct ids chosen so that sender and id written one after the other read the same ("c1"+12, "c11"+2, "c"+112).
+func c05ServerQC(k, bound int, quiesce, collide bool) *explore.Scenario {
 	fam := "C05/server-seam"
 	name := fmt.Sprintf("C05/server-seam/k=%d/d=%d", k, bound)
 	if quiesce {
 		name += "/quiescing"
 	}
+	if collide {
+		name += "/lookalike-senders"
+	}
+	srcOf := map[uint64]string{}
 	return &explore.Scenario{
 		Name:   name,
 		Family: fam, Prop: "C05", Bound: bound,
@@ -227,8 +241,17 @@ func c05ServerQ(k, bound int, quiesce bool) *explore.Scenario {
 				w.Rec(tag, "Bidi")
 				w.Handlers[tag] = func(r *env.Rec, ss grpc.ServerStream) error { return env.HCollect(r, ss) }
 				id := uint64(10 + i)
+				if collide {
+					id = []uint64{12, 2, 112}[i%3]
+				}
 				scripts = append(scripts, []*env.Rpc{env.ReqOpen(id, env.MBidi, tag), env.ReqBody(id, env.MBidi, tag+".m0"),
 					env.ReqBody(id, env.MBidi, tag+".m1"), env.ReqTrailer(id, env.MBidi)})
+				if collide {
+					for _, e := range scripts[i] {
+						e.Header.Source = []string{"c1", "c11", "c"}[i%3]
+					}
+					srcOf[id] = []string{"c1", "c11", "c"}[i%3]
+				}
 			}
 			vsched.Settle()
 			vsched.Explore(true)
@@ -269,6 +292,9 @@ func c05ServerQ(k, bound int, quiesce bool) *explore.Scenario {
 			}
 			// replies carry the right ids
 			for _, e := range d.Tap.Events {
+				if e.Dir == "b2a" && collide && e.Rpc.GetHeader().GetDestination() != srcOf[e.Rpc.GetId()] {
+					vsched.Fail(fam+"|foreign-reply", "reply on id %d is addressed to %q, the stream came from %q", e.Rpc.GetId(), e.Rpc.GetHeader().GetDestination(), srcOf[e.Rpc.GetId()])
+				}
 				if e.Dir != "b2a" || e.Rpc.Body == nil {
 					continue
 				}
